@@ -512,6 +512,11 @@ def _input_exists(an, y, x):
     return name in (fr.input_map() if kind == 'i' else fr.field_map())
 
 
+def _tree_of(an):
+    from ..src import Tree
+    return an.cat.tree
+
+
 def monotone_directions(an, rep, tier):
     """R16.8 - with everything else fixed, adjusted gross income, the deduction taken, taxable income, the tax and the
     total tax move in one direction (or not at all) when one amount input grows.  Decided by sa/mono.py + sa/slope.py
@@ -520,6 +525,18 @@ def monotone_directions(an, rep, tier):
     and must stay provable.  Directions that are not provable on the baseline are listed with the reason (notes)."""
     frozen = load_data('monotone_lines.json')
     inputs = MONO_INPUTS_QUICK if tier == 'quick' else MONO_INPUTS_ALL
+    # premise of every direction through the tax: the tax function itself never falls when the taxable amount grows (the slope
+    # prover treats figure_tax as a monotone black box); decided by the piecewise-affine fold of C07, rule D3
+    from . import c07
+    from ..report import Report
+    sub = Report('C07', 'quick', 0)
+    try:
+        c07.check(an.tree if hasattr(an, 'tree') else _tree_of(an), sub, tier='quick', seed=0)
+    except AnalysisError as e:
+        rep.error(f'premise "figure_tax is non-decreasing" not decided: {e}')
+    nd = [v for v in sub.violations if v['rule'] == 'D3' and 'non-decreasing' in v['key']]
+    rep.ob('R16.8', 'premise/figure_tax-never-falls-as-the-taxable-amount-grows', not nd,
+           (nd[0]['message'] if nd else '') + ': more wages can then lower the tax, and a larger deduction can raise it', nd[0].get('where', '') if nd else '')
     res = mono_results(an, list(an.cat.years), inputs, tier)
     n = 0
     got = {}
